@@ -74,6 +74,24 @@ type Batch struct {
 	Extra any
 	// PerSite multiplies Count by the number of sweep points (computed from the site table)
 	Sweep *SweepSpec
+	// Race: this batch runs in a second harness binary built with -race (batch names end in ".race")
+	Race bool
+}
+
+// replayBatch reads the batch name out of a replay file.
+func replayBatch(path string) string {
+	var m struct {
+		Batch string `json:"batch"`
+	}
+	if b, err := os.ReadFile(path); err == nil {
+		_ = json.Unmarshal(b, &m)
+	}
+	return m.Batch
+}
+
+// raceBatch tells whether a batch of a property runs in the -race binary.
+func raceBatch(spec *CheckSpec, batch string) bool {
+	return spec.Race || strings.HasSuffix(batch, ".race")
 }
 
 // SweepSpec describes an exhaustive single-delay sweep.
@@ -101,7 +119,7 @@ type CheckSpec struct {
 }
 
 var atpReal = []string{"atp client (atp/client.go)", "atp server (atp/server.go)", "schema package", "fxamacker/cbor", "context, reflect, regexp", "plugin step/signal plumbing (schema/step.go, schema/signal.go)"}
-var commonStub = []string{"sync.Mutex/Once -> scheduler-visible shim (simsync)", "transport -> simulated pipe (zzsimrt.Pipe)", "clock -> testing/synctest fake clock", "step/signal handlers and initializers -> harness code"}
+var commonStub = []string{"sync.Mutex/RWMutex/Once/WaitGroup -> scheduler-visible shims (simsync; WaitGroup keeps the real misuse checks)", "transport -> simulated pipe (zzsimrt.Pipe)", "clock -> testing/synctest fake clock", "step/signal handlers and initializers -> harness code"}
 
 var specs = map[string]*CheckSpec{
 	"C06": {
@@ -112,6 +130,7 @@ var specs = map[string]*CheckSpec{
 			{Name: "c06.sweep", Sweep: &SweepSpec{Files: []string{"atp/client.go", "atp/server.go"}, Occ: []int{1, 2, 3}, History: 4, Stride: 1}},
 			{Name: "c06.peer", Count: 4000},
 			{Name: "c06.peerv1", Count: 1000},
+			{Name: "c06.race", Count: 600},
 		},
 		Thorough: []Batch{
 			{Name: "c06.serial", Count: 150000},
@@ -120,8 +139,9 @@ var specs = map[string]*CheckSpec{
 			{Name: "c06.sweep", Count: 60000, Sweep: &SweepSpec{Files: []string{"atp/client.go", "atp/server.go"}, Occ: []int{1, 2, 3}, History: 8, Pairs: true}},
 			{Name: "c06.peer", Count: 200000},
 			{Name: "c06.peerv1", Count: 40000},
+			{Name: "c06.race", Count: 30000},
 		},
-		Rule: "each run = one seeded session (real client vs real server over simulated pipes) under one scheduling strategy; distinct = distinct schedule signature (hash of the sequence of context switches kind@site->kind@site); non-trivial = at least one preemption of a runnable goroutine",
+		Rule: "each run = one seeded session (real client vs real server over simulated pipes) under one scheduling strategy; batch c06.race repeats the mixed sessions in a -race build and reports SDK data races on maps (process death); distinct = distinct schedule signature (hash of the sequence of context switches kind@site->kind@site); non-trivial = at least one preemption of a runnable goroutine",
 		Real: atpReal, Stub: commonStub,
 		Assume: []string{"the peer is the SDK's own server (healthy by construction) or, in the c06.peer batches, a scripted protocol-conforming v3/v1 peer that also emits signals, non-fatal errors and unknown message IDs", "harness drains signalsFromStep and closes signalsToStep as the API documentation asks", "scheduling delays are logical (no fake time passes while a goroutine is held)"},
 	},
@@ -135,6 +155,7 @@ var specs = map[string]*CheckSpec{
 			{Name: "c07.unknownsig", Count: 600},
 			{Name: "c07.anydata", Count: 600},
 			{Name: "c07.crash", Count: 48, Extra: map[string]any{"every_byte": false, "stride": 8}},
+			{Name: "c07.race", Count: 1200},
 		},
 		Thorough: []Batch{
 			{Name: "c07.valid", Count: 100000},
@@ -144,8 +165,9 @@ var specs = map[string]*CheckSpec{
 			{Name: "c07.unknownsig", Count: 20000},
 			{Name: "c07.anydata", Count: 20000},
 			{Name: "c07.crash", Count: 400, Extra: map[string]any{"every_byte": true}},
+			{Name: "c07.race", Count: 40000},
 		},
-		Rule:   "each run = the real RunATPServer with a generated plugin against a scripted client drawn from a grammar of valid and invalid behaviour, under one seeded schedule; crash batches re-run a base script with end-of-input / read error / garbage at every enumerated byte offset of the client stream (thorough: every offset) plus output-side faults; distinct = schedule signature x fault point; non-trivial = a fault fired or a runnable goroutine was preempted",
+		Rule:   "each run = the real RunATPServer with a generated plugin against a scripted client drawn from a grammar of valid and invalid behaviour, under one seeded schedule; crash batches re-run a base script with end-of-input / read error / garbage at every enumerated byte offset of the client stream (thorough: every offset) plus output-side faults; batch c07.race repeats the hostile grammar in a -race build and reports SDK data races on maps (process death); distinct = schedule signature x fault point; non-trivial = a fault fired or a runnable goroutine was preempted",
 		Real:   []string{"atp server (atp/server.go)", "schema package incl. step/signal plumbing", "fxamacker/cbor"},
 		Stub:   append([]string{"atp client -> scripted client (canonical CBOR encoder of the harness)"}, commonStub...),
 		Assume: []string{"accepted work-start = well-formed envelope of type 1 with non-empty run and step IDs and decodable body, as decided by the harness's reference decoder on the bytes actually delivered", "a panic in any server goroutine is process death (descriptors closed)"},
@@ -532,17 +554,39 @@ func doCheck(id, tier string) int {
 	if err != nil {
 		infraExit("prepare: %v", err)
 	}
-	bin := filepath.Join(work, "harness.test")
-	if err := buildHarness(prep, spec.Race, bin); err != nil {
-		infraExit("%v", err)
-	}
-	codegenBin = prep.CodegenBin
-	buildS := time.Since(start).Seconds()
-
 	batches := spec.Quick
 	if tier == "thorough" {
 		batches = spec.Thorough
 	}
+	plainBin := filepath.Join(work, "harness.test")
+	raceBin := filepath.Join(work, "harness.race.test")
+	needPlain, needRace := false, false
+	for _, b := range batches {
+		if raceBatch(spec, b.Name) {
+			needRace = true
+		} else {
+			needPlain = true
+		}
+	}
+	if needPlain {
+		if err := buildHarness(prep, false, plainBin); err != nil {
+			infraExit("%v", err)
+		}
+	}
+	if needRace {
+		if err := buildHarness(prep, true, raceBin); err != nil {
+			infraExit("%v", err)
+		}
+	}
+	binFor := func(batch string) (string, bool) {
+		if raceBatch(spec, batch) {
+			return raceBin, true
+		}
+		return plainBin, false
+	}
+	codegenBin = prep.CodegenBin
+	buildS := time.Since(start).Seconds()
+
 	workerTimeout := 8 * time.Minute
 	if tier == "thorough" {
 		workerTimeout = 3 * time.Hour
@@ -596,7 +640,7 @@ func doCheck(id, tier string) int {
 	}
 	for i := range units {
 		units[i].job.Known = knownV
-		if spec.Race {
+		if raceBatch(spec, units[i].job.Batch) {
 			units[i].job.MaxViol = 1
 		}
 	}
@@ -612,7 +656,8 @@ func doCheck(id, tier string) int {
 		go func(u unit) {
 			defer wg.Done()
 			defer func() { <-sem }()
-			res := runWorker(bin, u.job, workerTimeout, spec.Race)
+			bin, race := binFor(u.job.Batch)
+			res := runWorker(bin, u.job, workerTimeout, race)
 			recs, rerr := readRecords(u.job.Out)
 			mu.Lock()
 			defer mu.Unlock()
@@ -620,7 +665,7 @@ func doCheck(id, tier string) int {
 				a.add(r, id)
 			}
 			complete := len(recs) > 0 && res.crashRun < 0 && !res.timedOut && strings.Contains(res.stderr, fmt.Sprintf("END %d", u.job.To-1))
-			if res.err != nil && !(spec.Race && complete) {
+			if res.err != nil && !(race && complete) {
 				// (a race build's test binary exits non-zero once the detector has reported anything,
 				// although the worker ran to completion: that is not a crash)
 				crashes = append(crashes, res)
@@ -641,7 +686,8 @@ func doCheck(id, tier string) int {
 		j := c.job
 		j.From, j.To = uint64(c.crashRun), uint64(c.crashRun)+1
 		j.Out = c.job.Out + ".rerun"
-		r2 := runWorker(bin, j, 5*time.Minute, spec.Race)
+		bin, race := binFor(j.Batch)
+		r2 := runWorker(bin, j, 5*time.Minute, race)
 		if r2.err != nil && r2.crashRun == c.crashRun {
 			line := fatalLine(r2.stderr)
 			v := Violation{Property: id, Class: "fatal", Signature: line, Detail: trunc(r2.stderr, 4000)}
@@ -659,7 +705,7 @@ func doCheck(id, tier string) int {
 			j2 := c.job
 			j2.From = uint64(c.crashRun) + 1
 			j2.Out = c.job.Out + ".rest"
-			r3 := runWorker(bin, j2, workerTimeout, spec.Race)
+			r3 := runWorker(bin, j2, workerTimeout, race)
 			recs, _ := readRecords(j2.Out)
 			for _, r := range recs {
 				a.add(r, id)
@@ -725,7 +771,8 @@ func doCheck(id, tier string) int {
 			if f.v.Class != "fatal" {
 				out := filepath.Join(work, "replay-out.jsonl")
 				rj := Job{Property: id, Mode: "replay", Replay: f.replay, Out: out}
-				rr := runWorker(bin, rj, 5*time.Minute, spec.Race)
+				bin, race := binFor(replayBatch(f.replay))
+				rr := runWorker(bin, rj, 5*time.Minute, race)
 				recs, _ := readRecords(out)
 				f.stable = rr.err == nil && len(recs) == 1 && strings.HasPrefix(recs[0].Reason, "reproduced") && !strings.Contains(recs[0].Reason, "differs")
 			} else {
